@@ -16,7 +16,7 @@ from pyside import enc_list
 
 TRUSTED = ["sqlite evaluates the generated WHERE clauses as written (NULL comparisons are false, INT affinity of "
            "start/end) - modelled in GffModel/Interface.lean, validated by the correspondence"]
-TRANSLATION_TIE = True        # vcheck: harness/gentie.py (bins.py translated to Lean, proved equal to the model)
+TRANSLATION_TIE = "bins"        # vcheck: harness/gentie.py (bins.py translated to Lean, proved equal to the model)
 LEANCHECKER_MODULES = ["GffProofs.Props.C06"]
 
 M = 2 ** 29
